@@ -721,6 +721,70 @@ def renumber(mods, rng=None, scramble=False):
     return len(order)
 
 
+# -------------------------------------------------------------------- register names that collide with other spellings
+def collide(mods, rng, chance=(1, 3)):
+    """Rename registers (params, locals, global vars) so that they are spelled exactly like something else the
+    writer prints: the labels of the function (`L<n>`, after numbering), items and prototypes of the module, types,
+    instructions, keywords.  The text format has one lexical class for all of these; which one a bare name denotes is
+    decided per operand position (label positions first, then registers of the function, then items).  Returns the
+    number of registers renamed, by family."""
+    done = {}
+    for m in mods:
+        item_names = [it["name"] for it in m["items"] if it.get("name") and it["kind"] not in ("proto", "func")]
+        proto_names = [it["name"] for it in m["items"] if it["kind"] in ("proto", "func")]
+        for it in m["items"]:
+            if it["kind"] != "func" or not rng.chance(*chance):
+                continue
+            regs = [n for (_, n, _) in it["args"]] + [n for (_, n) in it["locals"]] + [n for (_, n, _) in it["globals"]]
+            if not regs:
+                continue
+            targets, defined = [], []
+            for ins in it["body"]:
+                if ins[0] == "label":
+                    defined.append(ins[1])
+                else:
+                    targets += [o[1] for o in ins[1] if o[0] == "l"]
+            for _ in range(1 + rng.below(2)):
+                fam = rng.choice(["label", "label", "label", "item", "proto", "type", "insn", "keyword"])
+                if fam == "label":
+                    pool = ["L%d" % n for n in (targets or defined)]
+                    if targets and defined and rng.chance(1, 4):
+                        pool = ["L%d" % n for n in defined]
+                elif fam == "item":
+                    pool = item_names
+                elif fam == "proto":
+                    pool = proto_names
+                elif fam == "type":
+                    pool = TYPE_NAMES
+                elif fam == "insn":
+                    pool = ["add", "mov", "ret", "jmp", "call", "bt", "switch", "laddr", "label", "dmov", "alloca"]
+                else:
+                    pool = DIRECTIVES
+                pool = [n for n in pool if n not in regs]
+                if not pool:
+                    continue
+                old, new = rng.choice(regs), rng.choice(pool)
+                regs[regs.index(old)] = new
+
+                def rn(n):
+                    return new if n == old else n
+
+                def fix(o):
+                    if o[0] == "r":
+                        return ("r", rn(o[1]))
+                    if o[0] == "m":
+                        return o[:3] + (rn(o[3]) if o[3] is not None else None, rn(o[4]) if o[4] is not None else None) + o[5:]
+                    return o
+                it["args"] = [(t, rn(n), z) for (t, n, z) in it["args"]]
+                it["locals"] = [(t, rn(n)) for (t, n) in it["locals"]]
+                it["globals"] = [(t, rn(n), h) for (t, n, h) in it["globals"]]
+                if "regs" in it:
+                    it["regs"] = [(t, rn(n)) for (t, n) in it["regs"]]
+                it["body"] = [x if x[0] == "label" else (x[0], [fix(o) for o in x[1]]) for x in it["body"]]
+                done[fam] = done.get(fam, 0) + 1
+    return done
+
+
 # -------------------------------------------------------------------- description lines
 def op_desc(o):
     k = o[0]
